@@ -485,7 +485,7 @@ func torrentDir(w io.Writer, hash hash.Hash, pth path.Path, lastdir path.Path) {
 
 func torrentEntry(ctx context.Context, w http.ResponseWriter, t *tor.Torrent, dir path.Path) error {
 	hash := t.Hash
-	name := t.Name
+	name := html.EscapeString(t.Name)
 	if !t.InfoComplete() {
 		if name != "" {
 			name = name + " "
@@ -684,7 +684,8 @@ func peers(w http.ResponseWriter, r *http.Request, t *tor.Torrent) {
 					state = fmt.Sprintf("(%v)", st.String())
 				}
 				fmt.Fprintf(w, "<tr><td>%v</td><td>%v</td></tr>\n",
-					tt.URL(), state)
+					html.EscapeString(tt.URL()),
+					html.EscapeString(state))
 			}
 			if i+1 < len(trackers) {
 				fmt.Fprintf(w, "<tr></tr>\n")
@@ -703,7 +704,7 @@ func peers(w http.ResponseWriter, r *http.Request, t *tor.Torrent) {
 				cnt = fmt.Sprintf("%v", count)
 			}
 			fmt.Fprintf(w, "<tr><td>%v</td><td>%v</td><td>%.0f</td>",
-				ws.URL(), cnt, ws.Rate())
+				html.EscapeString(ws.URL()), cnt, ws.Rate())
 		}
 		fmt.Fprintf(w, "</table></p>\n")
 	}
